@@ -38,6 +38,17 @@ func (r *Rng) Bool() bool           { return r.U64()&1 == 1 }
 func (r *Rng) Chance(num, den int) bool { return r.Intn(den) < num }
 func (r *Rng) Pick(xs ...int) int   { return xs[r.Intn(len(xs))] }
 
+// mixSeed derives the PRNG state of case i; the multiplier differs from splitmix64's increment so that
+// neighbouring cases do not get shifted copies of one stream.
+func mixSeed(seed, i uint64) uint64 {
+	z := (seed+1)*0xD6E8FEB86659FD93 ^ (i+1)*0xA0761D6478BD642F
+	z ^= z >> 32
+	z *= 0xE7037ED1A0B428DB
+	z ^= z >> 29
+	z *= 0x94D049BB133111EB
+	return z ^ (z >> 32)
+}
+
 // Case is one generated operation sequence.
 type Case struct {
 	ID    string
@@ -60,6 +71,8 @@ type Comp struct {
 	Run func(t *testing.T, ops []string, o *Out)
 	// Serial: cases must not run in parallel (e.g. they measure goroutines).
 	Serial bool
+	// Timeout is the real-time watchdog per case (default 60 s).
+	Timeout time.Duration
 }
 
 var comps = map[string]*Comp{}
@@ -133,7 +146,7 @@ func runOne(t *testing.T, c *Comp, cs Case) []string {
 	select {
 	case l := <-done:
 		return l
-	case <-time.After(60 * time.Second):
+	case <-time.After(timeoutOf(c)):
 		return []string{"HANG"}
 	}
 }
@@ -169,7 +182,7 @@ func TestHarness(t *testing.T) {
 			n = 1
 		}
 		for i := 0; i < n; i++ {
-			r := NewRng(*fSeed*0x100000001B3 + uint64(i)*0x9E3779B97F4A7C15 + 1)
+			r := NewRng(mixSeed(*fSeed, uint64(i)))
 			cs := c.Gen(r, *fTier, i)
 			if cs.ID == "" {
 				cs.ID = fmt.Sprintf("s%d-%d", *fSeed, i)
@@ -294,4 +307,11 @@ func hexs(b []byte) string {
 		return "-"
 	}
 	return fmt.Sprintf("%x", b)
+}
+
+func timeoutOf(c *Comp) time.Duration {
+	if c.Timeout > 0 {
+		return c.Timeout
+	}
+	return 60 * time.Second
 }
